@@ -89,6 +89,8 @@ def regenerate():
     notes["cfg"] = gen_cfg.generate(os.path.join(COQ, "Gen"), interpreters(), worker_env())
     notes["src"] = translate_src.generate(REPO, os.path.join(COQ, "Gen", "Src.v"))
     notes["heap"] = translate_src.generate_heap(REPO, os.path.join(COQ, "Gen", "SrcHeap.v"))
+    notes["schema"] = translate_src.generate_schema(REPO, os.path.join(COQ, "Gen", "SrcSchema.v"))
+    notes["fields"] = translate_src.generate_fields(REPO, os.path.join(COQ, "Gen", "SrcFields.v"))
     return notes
 
 
